@@ -9,7 +9,8 @@ C02 — the property itself, over the plain history of operations (no fork table
   each such point ONCE, in the order written.
 
 Operations on other tasks do not occur in this definition at all (`enabledAfter` ignores them): that is the frame part of the property.
-Starting an id that is already enabled is refused and changes nothing (the task keeps its definition). Core Lean only.
+Starting an id that is LIVE is refused and changes nothing (the task keeps its definition); after a drain (all executions ended)
+every id may be started again. Core Lean only.
 -/
 import Kap.Model.C02
 namespace Kap.C02
@@ -38,12 +39,14 @@ def selectedBy (froms : List From) : Nat → Nat → String → String → RawPo
        | some j => selectedBy froms fuel j db rp p)
 
 /-- Under which definition is `t` enabled after one more operation (`none` = not enabled)?
-A task that declares no database/retention policy cannot be enabled; a task that is enabled cannot be enabled again. -/
+A task that declares no database/retention policy, or has no from() node, is never live (it can receive nothing); a task that is
+live cannot be started again; `drain` ends every execution. -/
 def enabledAfter (t : String) (cur : Option TaskDef) : Op → Option TaskDef
-  | .start d => if d.id = t ∧ d.dbrps ≠ [] ∧ cur = none then some d else cur   -- an enabled task is not started again
+  | .start d => if d.id = t ∧ d.dbrps ≠ [] ∧ d.froms ≠ [] ∧ cur = none then some d else cur   -- a live task is not started again
   | .startfail _ => cur          -- a start that fails does not enable the task
   | .stop id => if id = t then none else cur
   | .delete id => if id = t then none else cur
+  | .drain => none                -- draining ends every execution; the task may be started again afterwards
   | .write _ _ _ => cur
 
 /-- One written point together with the circumstances of its write. -/
@@ -63,6 +66,7 @@ def writeEvents (defaultRP t : String) : Option TaskDef → List Op → List WEv
   | cur, .startfail d :: rest => writeEvents defaultRP t (enabledAfter t cur (.startfail d)) rest
   | cur, .stop id :: rest => writeEvents defaultRP t (enabledAfter t cur (.stop id)) rest
   | cur, .delete id :: rest => writeEvents defaultRP t (enabledAfter t cur (.delete id)) rest
+  | cur, .drain :: rest => writeEvents defaultRP t (enabledAfter t cur .drain) rest
 
 /-- Must the point of this write event reach from-node #`i`? -/
 def qualifies (i : Nat) (w : WEv) : Bool :=
@@ -87,6 +91,7 @@ def relevant (t : String) : Op → Bool
   | .startfail d => d.id == t
   | .stop id => id == t
   | .delete id => id == t
+  | .drain => true
   | .write _ _ _ => true
 
 end Kap.C02
